@@ -33,6 +33,8 @@ def plan(tier, seed):
     for fam in FAMS:
         for r in range(n if fam != 'bingham' else max(4, n // 4)):
             D = int(rng.integers(2, 7)) if fam in ('watson', 'cacg', 'bingham', 'vmf') else int(rng.integers(1, 7))
+            if fam in ('watson', 'cacg', 'vmf', 'gauss') and r % 9 == 4:
+                D = int(pick([9, 10, 12, 16]))          # more channels than the usual 2..8
             if fam == 'bingham':
                 D = int(rng.integers(2, 5))
             lead = rand_lead(rng, small=(fam == 'bingham'))
@@ -86,11 +88,12 @@ def _fit_fn(fam):
     if fam == 'cacg':
         return lambda y, s: d.ComplexAngularCentralGaussianTrainer().fit(y, **CACG_KW)
     if fam == 'bingham':
-        return lambda y, s: ComplexBinghamTrainer(max_concentration=500).fit(y, saliency=s)
+        return lambda y, s: ComplexBinghamTrainer(max_concentration=WATSON_KW.get('bingham_max', 500)).fit(y, saliency=s)
 
 
 def run_dist(case, R):
     rng = gen.rng_of(case)
+    CACG_KW.clear(); WATSON_KW.clear()
     fam, D, N, lead = case['fam'], case['D'], case['N'], tuple(case['lead'])
     real = fam in ('gauss', 'diag', 'spher', 'vmf')
     if real:
@@ -103,14 +106,25 @@ def run_dist(case, R):
         for idx in np.ndindex(*lead):
             C[idx] = gen.hpd(rng, D, cond=float(cond[idx]))
         y = np.einsum('...ab,...nb->...na', np.linalg.cholesky(C), gen.cnormal(rng, (*lead, N, D)))
+    if lead and int(np.prod(lead)) >= 2 and (case['rs'][-1] % 5 == 2 or (fam == 'bingham' and case['rs'][-1] % 2 == 0)):
+        # near-duplicate slices: the second slice is the first one with one channel's gain changed by 1e-9 .. 1e-4 (anything keyed on
+        # rounded statistics of a slice, or shared between "equal" slices, shows up only here)
+        flat = y.reshape(-1, N, D).copy()
+        ch = int(rng.integers(D))
+        if fam == 'bingham':
+            # concentrated data with one weak channel (scatter eigenvalue 1e-5 .. 1e-3, to which its Bingham parameter ~ -1/lambda is
+            # sensitive): changing that channel's gain by 1e-5 moves the normalised spectrum by < 1e-8 but the parameter by 1e-5
+            sc = np.ones(D); ch = D - 1; sc[ch] = 10 ** rng.uniform(-2.5, -1.5)
+            flat[0] = gen.cnormal(rng, (N, D)) * sc
+            WATSON_KW['bingham_max'] = np.inf
+        flat[1] = flat[0] * (1 + np.eye(D)[ch] * 10 ** (rng.uniform(-5.5, -4) if fam == 'bingham' else rng.uniform(-9, -4)))
+        y = flat.reshape(*lead, N, D)
     sal = rng.uniform(0.1, 1.0, size=(*lead, N)) if (case['saliency'] and fam != 'cacg') else None
     x = (rng.standard_normal((*lead, 5, D)) if real else gen.cnormal(rng, (*lead, 5, D)))
-    CACG_KW.clear()
     if fam == 'cacg':
         CACG_KW.update(covariance_norm=[None, 'eigenvalue', 'trace', False][int(rng.integers(1, 4))], eigenvalue_floor=float(rng.choice([1e-10, 0.05, 0.2])),
                        iterations=int(rng.choice([1, 4, 4, 10, 30, 100])))
         y = y * 10 ** rng.uniform(-2, 2, size=(*lead, 1, 1))           # slices with different spectra / scales
-    WATSON_KW.clear()
     if fam == 'watson':
         WATSON_KW.update(max_concentration=float(rng.choice([500, 600, 700])) if D <= 6 else 500.0)
         if lead and rng.uniform() < 0.5:
